@@ -49,6 +49,9 @@ func checkC13(c *an.Ctx) {
 	for _, site := range compileCommandSites(c, r) {
 		ap := an.AccessPath(argOf(site.call, cc, "timeout"))
 		good := ap.LastField() == "Timeout" && len(ap.Fields) == 1 && an.TypeIs(ap.Base.Type(), "pkg/task", "Task")
+		if !good {
+			good = c.P.DeepFieldProvCallers(argOf(site.call, cc, "timeout")) == "Task.Timeout"
+		}
 		c.Check(good, "C13.2", an.Short(site.fn)+":CompileCommand("+site.kind+"):timeout", site.call.Pos(), "passes the task's Timeout", "the "+site.kind+" job is compiled without the task's timeout: "+ap.String())
 	}
 	// every Job allocated in functions reachable from CompileTask has Timeout set
